@@ -180,8 +180,80 @@ def general_cloud(rng, d, n):
 
 # ----------------------------------------------------------------------------- recipes -> real objects
 
+def _decoy(a):
+    """another non-degenerate point set of the same shape (used as the target of a previous life)"""
+    a = np.array(a, dtype=float)
+    d = a.shape[1]
+    m = np.eye(d) * 1.5
+    m[0, -1] = 0.5
+    m[-1, 0] = -0.25
+    return a.dot(m) + np.arange(d) * 0.75 + 1.0
+
+
 def build(recipe):
-    """rebuild the real transform from a JSON-able recipe (also used by replays)"""
+    """rebuild the real transform from a JSON-able recipe (also used by replays).
+
+    recipe["history"] == "pinv-then-update": the object has had a previous life - it was built on other parameters,
+    its pseudoinverse() was taken, and only then was it brought to the recipe's parameters through a public mutator
+    (set_target for alignments; set_h_matrix / from_vector_inplace otherwise).  Property C08/C05 make it
+    indistinguishable from a fresh object, so every C04 clause must hold for it exactly as for a fresh one."""
+    t = _build_fresh(recipe)
+    if recipe.get("history") != "pinv-then-update":
+        return t
+    import warnings
+    from menpo.shape import PointCloud
+    from menpo.transform.base import Alignment
+    if isinstance(t, Alignment):
+        old = dict(recipe)
+        old.pop("history")
+        key = "target" if recipe["kind"] == "hom" else "tgt"
+        old[key] = _decoy(recipe[key]).tolist()
+        try:
+            u = _build_fresh(old)
+        except Exception:
+            return t
+        try:
+            u.pseudoinverse()
+        except Exception:
+            pass
+        u.set_target(PointCloud(np.array(recipe[key], dtype=float)))
+        return u
+    if recipe["kind"] != "hom":
+        return t
+    old = dict(recipe)
+    old.pop("history")
+    for k in ("h", "R", "t", "v"):
+        if k in old:
+            a = np.array(old[k], dtype=float)
+            old[k] = (a.T if k == "R" else a * 2.0 + (0.0 if k in ("v",) else 0.0)).tolist()
+    if "h" in old:
+        a = np.array(recipe["h"], dtype=float)
+        a[:-1, -1] += 1.0
+        old["h"] = a.tolist()
+    if "s" in old:
+        old["s"] = float(old["s"]) * 2.0
+    try:
+        u = _build_fresh(old)
+        u.pseudoinverse()
+    except Exception:
+        return t
+    with warnings.catch_warnings():
+        warnings.simplefilter("ignore")
+        try:
+            u.from_vector_inplace(t.as_vector())
+            return u
+        except Exception:
+            pass
+        try:
+            if getattr(u, "h_matrix_is_mutable", False):
+                u.set_h_matrix(np.array(t.h_matrix, dtype=float))
+                return u
+        except Exception:
+            pass
+    return t
+
+
+def _build_fresh(recipe):
     import menpo.transform as T
     from menpo.shape import PointCloud, TriMesh
     k = recipe["kind"]
@@ -225,7 +297,7 @@ def snippet(recipe):
 def gen_hom(rng, cls=None, d=None):
     cls = cls or rng.choice(FAMILY)
     d = d or rng.choice([2, 3])
-    r = {"kind": "hom", "cls": cls, "d": d}
+    r = {"kind": "hom", "cls": cls, "d": d, "history": rng.choice([None, "pinv-then-update"])}
     if cls == "Homogeneous":
         while True:
             m = int_matrix(rng, d + 1, -3, 3, 1, 24)
@@ -314,7 +386,8 @@ def gen_pwa(rng):
         b_or = [tri_cross(base, t) for t in tris]
         if all(abs(v) >= Fraction(1, 8) for v in s_or + b_or) and all((u > 0) == (v > 0) for u, v in zip(s_or, b_or)):
             break
-    r = {"kind": "pwa", "cls": rng.choice(["PythonPWA", "CachedPWA"]), "src": src, "tgt": tgt, "trilist": tris}
+    r = {"kind": "pwa", "cls": rng.choice(["PythonPWA", "CachedPWA"]), "src": src, "tgt": tgt, "trilist": tris,
+         "history": rng.choice([None, "pinv-then-update"])}
 
     def interior(pts):
         out = []
@@ -363,7 +436,8 @@ def gen_tps(rng):
             continue
         if tps_system_ok(src) and tps_system_ok(tgt):
             break
-    return {"kind": "tps", "src": src, "tgt": tgt, "kernel": rng.choice([None, "R2LogR2RBF", "R2LogRRBF"]),
+    return {"kind": "tps", "history": rng.choice([None, "pinv-then-update"]),
+            "src": src, "tgt": tgt, "kernel": rng.choice([None, "R2LogR2RBF", "R2LogRRBF"]),
             "pts": [[rng.randint(-16, 16) / 4.0, rng.randint(-16, 16) / 4.0] for _ in range(3)]}
 
 
@@ -458,6 +532,7 @@ def case_hom(ctx, r, lines, pend, cid):
         s0, t0 = t.source, t.target
         s0p, t0p = s0.points.copy(), t0.points.copy()
     ctx.count("class:%s/%dD" % (cls, d))
+    ctx.count("history:hom:" + str(r.get("history")))
     try:
         hti = t.has_true_inverse
         p = t.pseudoinverse()
@@ -624,6 +699,7 @@ def case_tps(ctx, r, lines, pend, cid):
     rp = {"recipe": r, "python": snippet(r)}
     site = "C04/tps.pinv"
     ctx.count("class:ThinPlateSplines/%s" % (r["kernel"] or "default"))
+    ctx.count("history:tps:" + str(r.get("history")))
     pts = np.array(r["pts"], dtype=float)
     try:
         t = build(r)
